@@ -32,6 +32,7 @@ type C17Case struct {
 	History string // name of the loading history
 	Step    int    // number of dictionaries loaded
 	Query   string
+	Ctor    bool `json:",omitempty"` // the dictionaries were handed to dict.NewParser in one call
 }
 
 type c17History struct {
@@ -427,6 +428,49 @@ func c17RunHistory(h c17History, ctx *ev.Ctx) (queries int, cs *C17Case, what st
 	return queries, nil, ""
 }
 
+// c17RunCtor: the history's dictionaries are written to files and handed to dict.NewParser in one
+// call; the files are loaded in argument order, so the lookups agree with the reference model
+// loaded in that order. Repeated a few times (a constructor is called at start-up, every time).
+func c17RunCtor(h c17History, ctx *ev.Ctx) (queries int, cs *C17Case, what string) {
+	defer func() {
+		if r := recover(); r != nil {
+			cs, what = &C17Case{History: h.name}, fmt.Sprintf("PANIC: %v", r)
+		}
+	}()
+	dir, err := os.MkdirTemp("", "c17-ctor-")
+	if err != nil {
+		ev.Infra("%v", err)
+	}
+	defer os.RemoveAll(dir)
+	var paths []string
+	m := refdict.NewModel()
+	c17Future = refdict.NewModel()
+	defer func() { c17Future = nil }()
+	for i, x := range h.xmls {
+		path := filepath.Join(dir, fmt.Sprintf("dict%d.xml", i))
+		if err := os.WriteFile(path, []byte(x), 0o644); err != nil {
+			ev.Infra("%v", err)
+		}
+		paths = append(paths, path)
+		if err := m.Load(x); err != nil {
+			ev.Infra("reference model: %v", err)
+		}
+		c17Future.Load(x)
+	}
+	for round := 0; round < 5; round++ {
+		p, err := dict.NewParser(paths...)
+		if err != nil {
+			return queries, &C17Case{History: h.name}, "dict.NewParser(files...) failed: " + err.Error()
+		}
+		n, q, s := c17Queries(p, m, map[string]bool{}, map[string]bool{})
+		queries += n
+		if s != "" {
+			return queries, &C17Case{History: h.name, Query: q}, fmt.Sprintf("after dict.NewParser with %d files (loaded in argument order), %s: %s", len(paths), q, s)
+		}
+	}
+	return queries, nil, ""
+}
+
 type c17Bad struct{ xml, why string }
 
 // c17Rejected builds dictionaries a Load must reject without having added anything the lookups
@@ -488,6 +532,17 @@ func runC17(ctx *ev.Ctx) {
 		ctx.Eval(ev.HS(h.name))
 		n, cs, what := c17RunHistory(h, ctx)
 		total += int64(n)
+		if what == "" && (strings.HasPrefix(h.name, "generated-family/") || strings.HasPrefix(h.name, "base+generated-family/") || strings.HasPrefix(h.name, "reload/reader/")) {
+			// the same dictionaries handed to the constructor in one call
+			n2, cs2, what2 := c17RunCtor(h, ctx)
+			total += int64(n2)
+			if what2 != "" {
+				cs, what = cs2, what2
+				if cs != nil {
+					cs.Ctor = true
+				}
+			}
+		}
 		ctx.Sample(fmt.Sprintf("loading history %s (%d dictionaries): %d lookups compared", h.name, len(h.xmls), n))
 		if what != "" {
 			ctx.Report("", generalise(what), what+" | history: "+h.name, cs)
@@ -495,7 +550,7 @@ func runC17(ctx *ev.Ctx) {
 	}
 	ctx.Set("lookups_compared", total)
 	ctx.AddEvals(total, total)
-	ctx.Rule = "three child processes whose first use of dict.Default is Load / LoadFile of a dictionary that re-declares embedded AVPs / one lookup and then the Load (control): the definitions loaded last win in all three, which resolve identically; loading histories: a dictionary loaded again after another one redefined its AVPs and a file edited and reloaded from the same path (through Load and through LoadFile with temporary files); one application id declared under two types by successive loads; dictionary files with several application elements (bare re-declarations of loaded applications before / between / after populated ones); the embedded dictionaries (extracted from diam/dict/default.go) in default order, every rotation and every adjacent swap; a generated family of four 3-AVP dictionaries that redefine each other's codes and names across application 0 / 4 / 16777251 and vendor variants, in all 24 orders, alone and on top of the base dictionary. After every Load - and after Loads that are rejected (a re-declared command, an undeclarable data type, truncated XML) following the first and the last dictionary of each history: FindAVPWithVendor by uint32 code, by int code and by name, FindAVP by int, FindCommand and App(id[,type]) for every application (loaded, children of the parent map, 0, an unrelated id) x every code / name present anywhere plus +-1 neighbours x vendor {declared, 0, another, wildcard}, plus every code looked up under two different vendor ids directly after one another, (the key space is that of ALL dictionaries of the history, so keys are also looked up while still undefined) are compared with the reference model, and everything resolvable before the Load must still be. Distinct by (history, query)."
+	ctx.Rule = "three child processes whose first use of dict.Default is Load / LoadFile of a dictionary that re-declares embedded AVPs / one lookup and then the Load (control): the definitions loaded last win in all three, which resolve identically; the generated-family and reload histories also through dict.NewParser(file1, file2, ...) in one call (five times each): argument order is load order; loading histories: a dictionary loaded again after another one redefined its AVPs and a file edited and reloaded from the same path (through Load and through LoadFile with temporary files); one application id declared under two types by successive loads; dictionary files with several application elements (bare re-declarations of loaded applications before / between / after populated ones); the embedded dictionaries (extracted from diam/dict/default.go) in default order, every rotation and every adjacent swap; a generated family of four 3-AVP dictionaries that redefine each other's codes and names across application 0 / 4 / 16777251 and vendor variants, in all 24 orders, alone and on top of the base dictionary. After every Load - and after Loads that are rejected (a re-declared command, an undeclarable data type, truncated XML) following the first and the last dictionary of each history: FindAVPWithVendor by uint32 code, by int code and by name, FindAVP by int, FindCommand and App(id[,type]) for every application (loaded, children of the parent map, 0, an unrelated id) x every code / name present anywhere plus +-1 neighbours x vendor {declared, 0, another, wildcard}, plus every code looked up under two different vendor ids directly after one another, (the key space is that of ALL dictionaries of the history, so keys are also looked up while still undefined) are compared with the reference model, and everything resolvable before the Load must still be. Distinct by (history, query)."
 	ctx.Assume = []string{"reference model refdict: application -> documented parents (16777251->4, 16777238->4, 4->1) -> base; exact vendor or wildcard; last load wins"}
 }
 
@@ -722,6 +777,10 @@ func replayC17(ctx *ev.Ctx, raw json.RawMessage) string {
 		return ""
 	}
 	for _, h := range c17Histories() {
+		if h.name == cs.History && cs.Ctor {
+			_, _, what := c17RunCtor(h, ctx)
+			return what
+		}
 		if h.name == cs.History {
 			_, _, what := c17RunHistory(h, ctx)
 			return what
